@@ -3,7 +3,7 @@
    specification: Spec/XsdDates.v (XSD 1.1 lexical spaces, Gregorian calendar, timeline). *)
 From Coq Require Import NArith ZArith List Bool.
 From XV Require Import Base.Str Base.PyInt Model.Dates Model.DatesStd Model.DatesCorr Spec.XsdDates
-  Proofs.DatesCal Proofs.DatesParse Proofs.DatesFormat Proofs.DatesOrder Proofs.DatesDuration Proofs.DatesPeriod Proofs.DatesStd Proofs.DatesStr.
+  Proofs.DatesCal Proofs.DatesParse Proofs.DatesFormat Proofs.DatesOrder Proofs.DatesDuration Proofs.DatesPeriod Proofs.DatesStd Proofs.DatesStr Proofs.DatesReplace.
 Import ListNotations.
 Open Scope Z_scope.
 
@@ -201,6 +201,30 @@ Theorem C06_period_str_roundtrip : forall s,
   /\ (forall t, period_str s = Some t -> period_str t = Some t).
 Proof. exact period_str_roundtrip. Qed.
 Print Assumptions C06_period_str_roundtrip.
+
+(* 8. replace() is a pure field update: nothing given = identity; each argument decides exactly its own field
+      (offset=None removes the zone, the sentinel keeps it); moving a valid value to another real zone keeps it
+      valid and printable *)
+Theorem C06_replace_nothing : forall d t dt,
+  date_replace d None None None OffKeep = d /\ time_replace t None None None None OffKeep = t
+  /\ datetime_replace dt None None None None None None None OffKeep = dt.
+Proof. intros d t dt. repeat split; [apply date_replace_nothing|apply time_replace_nothing|apply datetime_replace_nothing]. Qed.
+Print Assumptions C06_replace_nothing.
+
+Theorem C06_datetime_replace_fields : forall v y m d h mi s f o,
+  let r := datetime_replace v y m d h mi s f o in
+  dt_year r = keep_z y (dt_year v) /\ dt_month r = keep_z m (dt_month v) /\ dt_day r = keep_z d (dt_day v)
+  /\ dt_hour r = keep_z h (dt_hour v) /\ dt_minute r = keep_z mi (dt_minute v) /\ dt_second r = keep_z s (dt_second v)
+  /\ dt_frac r = keep_z f (dt_frac v) /\ dt_offset r = keep_off o (dt_offset v).
+Proof. exact datetime_replace_fields. Qed.
+Print Assumptions C06_datetime_replace_fields.
+
+Theorem C06_datetime_replace_zone : forall v o,
+  valid_datetime_value v = true -> real_offset o = true -> year_fits (dt_year v) ->
+  let r := datetime_replace v None None None None None None None (OffSet o) in
+  valid_datetime_value r = true /\ datetime_from_string (datetime_str r) = Some r.
+Proof. intros v o Hv Ho Hy r. split; [apply datetime_replace_zone_valid|apply datetime_replace_zone_roundtrip]; assumption. Qed.
+Print Assumptions C06_datetime_replace_zone.
 
 (* non-vacuity of the hypotheses above *)
 Example C06_guards_inhabited :
